@@ -7,8 +7,10 @@ C12 wid    idx=.. dic=<u8> word=<u32> raw=<u32>
 C12 lexset idx=.. nsp=<n> lex=<lexicon>|<lexicon>|.. offs=<n,..> q=<raw,..>
              lexicon = <posid:a:b:w;..>@<w.e,..>        a, b, w = `*` or comma lists of raw word ids
 C12 grammar idx=.. g=<pos;..> calls=<g|r|a|f:pos;..>     (get id / register_pos / handle_user_pos allow / forbid)
-C12 stack  idx=.. sysrows=<row;..> plug=<a|f:pos;..> base=sys|plug pre=all|sys users=<row;..>|<row;..>|.. wids=<raw,..>
+C12 stack  idx=.. sysrows=<row;..> plug=<a|f:pos;..> base=sys|plug pre=all|sys mv=any|limit users=<row;..>|<row;..>|.. wids=<raw,..>
              pre  = which `new_user`/`preload_pos` the tree has (`PreVariant`): `all` = pinned (absent = `all`), `sys` = repaired
+             mv   = which `merge_user_dictionary` the tree has (`MergeVariant`): `any` = pinned (absent = `any`), `limit` = repaired
+C12 poslimit idx=.. mv=any|limit s=<system POS> q=<plugin POS> users=<own POS count,..> tabs=<table number,..> w=<dic.word,..>
              row  = surface:headword:reading:mode:pos:A:B:W      pos = c1.c2.c3.c4.c5.c6 (interned strings)
              A, B = `*` or units joined by `/`;  unit = U<n> | <n> | I,<surface>,<pos>,<reading>
              W    = `*` or U<n> | <n> joined by `/`
@@ -247,12 +249,17 @@ def estTable (t : List ((Nat × Nat × Nat) × Option (Int × Nat))) (st : LoadS
   | some (_, none) => .err .disconnect
   | none => .panic "no estimate for this state"
 
+/-- `mv=`: which `merge_user_dictionary` the tree has (`MergeVariant`): `limit` = repaired, anything else / absent = pinned -/
+def mergeVariantOf (toks : List (List Char)) : MergeVariant :=
+  if kv? toks "mv" = some "limit".toList then .limit else .unbounded
+
 def handleStack (toks : List (List Char)) : String :=
   match (kv? toks "sysrows").bind parseRows, kv? toks "plug", kv? toks "base", kv? toks "users", (kv? toks "wids").bind natList? with
   | some sysrows, some plug, some base, some users, some wids =>
     match allSome ((items ';' plug).map parsePlug), allSome ((items '|' users).map parseRows) with
     | some plugs, some urows =>
       let pre : PreVariant := if kv? toks "pre" = some "sys".toList then .sysOnly else .all
+      let mv : MergeVariant := mergeVariantOf toks
       match build none sysrows with
       | .err e => "err:Build:0:" ++ showErr e
       | .panic _ => "PANIC:Build:0"
@@ -292,7 +299,7 @@ def handleStack (toks : List (List Char)) : String :=
                   (⟨x.1.1, x.1.2, (x.2.1.zip x.2.2).map (fun rc => ⟨rc.1.headword, rc.2⟩)⟩ : UserDic))
                 let full := (kv? toks "costs").isSome
                 let usersF : List UserDic := if full then userDics else us.map (fun u => ⟨u.1, u.2, []⟩)
-                match loadFull (estTable table) sysPos ⟨sysB.words, 255, []⟩ (match costs with | c :: _ => c | [] => []) dim dim conn plugs 1 usersF with
+                match loadFullV mv (estTable table) sysPos ⟨sysB.words, 255, []⟩ (match costs with | c :: _ => c | [] => []) dim dim conn plugs 1 usersF with
                 | .err e => "err:Load:" ++ showErr e
                 | .panic _ => "PANIC:Load"
                 | .ok st =>
@@ -306,6 +313,45 @@ def handleStack (toks : List (List Char)) : String :=
                     | .panic _ => "PANIC")) ++
                   (if full then " cost=" ++ joinWith "|" (st.costs.map showInts) ++ " inh=" ++ toString st.inhibited.length else "")
     | _, _ => "bad-op"
+  | _, _, _, _, _ => "bad-op"
+
+/-! ### `poslimit`: the merged POS list at the edge of what a `u16` id addresses
+
+The dictionaries are described by their sizes only (the harness checks on the real binaries that they have this shape):
+POS `(t, i)` = entry `i` of table `t` (0 = system dictionary, 1 = registered by the OOV plugins, `tabs[k]` = own table of
+the k-th loaded user dictionary); system word `i` has POS id `i`; word `w` of a user dictionary is stored with the id
+`s + w` (its own entry `w`). -/
+
+def synPos (t i : Nat) : Pos := [0, t, i, 1, 1, 1]
+
+def synTable (t n : Nat) : List Pos := (List.range n).map (synPos t)
+
+def synName (g : List Pos) (id : Nat) : String :=
+  match g[id]? with
+  | some [_, t, i, _, _, _] => toString t ++ "." ++ toString i
+  | some _ => "?"
+  | none => "OOB"
+
+def handlePoslimit (toks : List (List Char)) : String :=
+  match (kv? toks "s").bind nat?, (kv? toks "q").bind nat?, (kv? toks "users").bind natList?, (kv? toks "tabs").bind natList?,
+        (kv? toks "w").bind (fun x => allSome ((items ',' x).map parseHit)) with
+  | some s, some q, some ns, some tabs, some ws =>
+    let sysPos := synTable 0 s
+    let sysLex : Lexicon := ⟨(List.range s).map (fun i => ⟨i, [], [], []⟩), 255, []⟩
+    let plugs : List (Bool × Pos) := (List.range q).map (fun k => (true, synPos 1 k))
+    let users : List UserDic := (ns.zip tabs).map (fun nt =>
+      ⟨synTable nt.2 nt.1, ⟨(List.range nt.1).map (fun w => ⟨s + w, [], [], []⟩), 255, []⟩, []⟩)
+    match loadFullV (mergeVariantOf toks) (fun _ _ => .panic "no estimate") sysPos sysLex [] 1 1 [] plugs q users with
+    | .err e => "err:Load:" ++ showErr e
+    | .panic _ => "PANIC:Load"
+    | .ok st =>
+      let d := st.dict
+      "ok n=" ++ toString d.posList.length ++ " w=" ++ joinWith ";" (ws.map (fun dw =>
+        toString dw.1 ++ "." ++ toString dw.2 ++ ":" ++
+          (match d.set.getWordInfo (mkRaw dw.1 dw.2) with
+           | .ok wi => toString wi.posId ++ ":" ++ synName d.posList wi.posId
+           | .err _ => "err"
+           | .panic _ => "PANIC")))
   | _, _, _, _, _ => "bad-op"
 
 /-! ### `grammar`: `Grammar::{get_part_of_speech_id, register_pos}` and `handle_user_pos` called directly -/
@@ -342,6 +388,7 @@ def handle (op : List Char) (toks : List (List Char)) : String :=
   | "wid" => handleWid toks
   | "lexset" => handleLexset toks
   | "stack" => handleStack toks
+  | "poslimit" => handlePoslimit toks
   | "grammar" => handleGrammar toks
   | _ => "bad-op"
 
